@@ -31,6 +31,9 @@ EVERY schedule (`Mutex.exec S true (Mutex.init s₀ progs) sch = some c`):
                               on an invariant of your choice;
 * `Mutex.linearizable_complete` the form for runs in which every thread has finished;
 * `Mutex.mutual_exclusion`, `Mutex.progress` (some thread is enabled until all are done);
+* `Mutex.schedule_bounded` / `schedule_bounded_programs`: once you have shown that every operation, started in any
+  state, finishes within `bound op` micro-steps (`RunsN`, the counted `Runs`), every schedule is at most
+  `Σ (bound op + 2)` steps long — no schedule runs for ever;
 * `Mutex.SeqRuns.det`, `Mutex.Runs.det` (results and final state are functions of the operations, so "equal to the
   sequential execution" is meaningful), `Mutex.runs_atomic` for `Sys.atomic`.
 
